@@ -148,6 +148,15 @@ def closure(nodes):
     return out
 
 
+def _has_subst(t):
+    """A substitution result's parameters come from the substituted value as well as from the
+    declaration: the "declared on the path" clause has no model for them (the other clauses -
+    path reaches the value, stated fact true, message names the path - still apply)."""
+    if isinstance(t, tuple):
+        return (len(t) > 0 and t[0] == "subst") or any(_has_subst(x) for x in t)
+    return False
+
+
 def nodes_at(t, keys):
     nodes = closure([t])
     for key in keys:
@@ -307,7 +316,7 @@ def check_errors(t, v, errors, builder, which):
         f = fact_holds(e, reached, builder)
         if f is not True:
             yield f"C03|{which}|stated-fact-false|{name}|{f}", repr(e)
-        if not any(declares(n, e) for n in nodes_at(t, keys)):
+        if not _has_subst(t) and not any(declares(n, e) for n in nodes_at(t, keys)):
             yield f"C03|{which}|parameter-not-declared-on-path|{name}|depth{depth}", repr(e)
         try:
             msg = e.format(FMT)
